@@ -206,15 +206,17 @@ Proof. exact StrConvProofs.try_from_eq_parse. Qed.
 (* parse agrees with Deserialize-from-a-JSON-string on every string-wired type (simple enums,
    constrained / plain string newtypes, natives, untagged string unions) *)
 Theorem C05_parse_is_de :
-  forall (re_match native_parse : ustring -> ustring -> bool) (T : space) (f : nat) (t : id) (s : ustring),
-    StrConv.string_wired T f t = true -> StrConv.wf_conv T f t = true -> StrConv.emits_fromstr T f t = true ->
+  forall (re_match native_parse : ustring -> ustring -> bool) (string_native : ustring -> bool)
+         (T : space) (f : nat) (t : id) (s : ustring),
+    StrConv.string_wired string_native T f t = true -> StrConv.wf_conv T f t = true -> StrConv.emits_fromstr T f t = true ->
     StrConv.from_str re_match native_parse T f t s = StrConv.de_str re_match native_parse T f t s.
 Proof. exact StrConvProofs.parse_eq_de. Qed.
 
 (* TryFrom<String> of allow / deny list newtypes over String is what Deserialize does *)
 Theorem C05_try_from_inner_is_de :
-  forall (re_match native_parse : ustring -> ustring -> bool) (T : space) (f : nat) (t : id) (s : ustring),
-    StrConv.string_wired T f t = true -> StrConv.emits_tryfrom_inner T t = true ->
+  forall (re_match native_parse : ustring -> ustring -> bool) (string_native : ustring -> bool)
+         (T : space) (f : nat) (t : id) (s : ustring),
+    StrConv.string_wired string_native T f t = true -> StrConv.emits_tryfrom_inner T t = true ->
     StrConv.de_str re_match native_parse T f t s = StrConv.try_from_inner T t s.
 Proof. exact StrConvProofs.try_from_inner_eq_de. Qed.
 
